@@ -419,7 +419,7 @@ pub fn debug_gen(args: &[String]) {
             let (doc, text, d) = libgen::gen_note(&mut rng, &o, k, &keys, &mut words);
             dropped += d;
             notes += 1;
-            if args.get(3).map(|s| s == "show").unwrap_or(false) && case < 3 {
+            if args.get(3).map(|s| s == "show").unwrap_or(false) && case < args.get(4).and_then(|s| s.parse().ok()).unwrap_or(3) {
                 println!("=== {} ===\n{}", k, text);
             }
             let _ = doc;
